@@ -180,6 +180,28 @@ Fixpoint prefix_b (p l : list bytes) : bool :=
   end.
 Definition anchor_ok_b (impl : list bytes) (chains : list (list anc)) : bool :=
   forallb (fun c => prefix_b impl (candidate c)) chains.
-(* the collector: the path of the first chain *)
+(* commonPathPrefix *)
+Fixpoint common_prefix (a b : list bytes) : list bytes :=
+  match a, b with
+  | x :: a', y :: b' => if bytes_eqb x y then x :: common_prefix a' b' else []
+  | _, _ => []
+  end.
+(* the collector (EnterSelectionSet since 98fef79): the chains are the selection sets with a direct field
+   child stamped with the defer id, in document order; the first records its path, every later one shrinks
+   the recorded path to the common prefix *)
 Definition collector_path (s : schema) (root : bytes) (chains : list (list anc)) : list bytes :=
+  match chains with
+  | [] => []
+  | c :: r => fold_left (fun acc c' => common_prefix acc (defer_path s root c')) r (defer_path s root c)
+  end.
+(* before 98fef79: the path of the first chain only (finding defer-merged-mount-wrong-anchor (a)) *)
+Definition collector_path_v0 (s : schema) (root : bytes) (chains : list (list anc)) : list bytes :=
   match chains with [] => [] | c :: _ => defer_path s root c end.
+(* the specification of the same: every selection set's path cut at its outermost list (narrowed types) *)
+Definition spec_collector_path (s : schema) (root : bytes) (chains : list (list anc)) : list bytes :=
+  match chains with
+  | [] => []
+  | c :: r => fold_left (fun acc c' => common_prefix acc (spec_path s root c')) r (spec_path s root c)
+  end.
+Definition desc_paths_ok_b (s : schema) (root : bytes) (chains : list (list anc)) (impl : list bytes) : bool :=
+  path_eqb impl (spec_collector_path s root chains).
